@@ -53,8 +53,11 @@ async fn run_world(wi: u64, mut rng: Rng) -> anyhow::Result<Summary> {
             4 => format!("[::ffff:10.{}.{}.1]:9000", i + 1, i + 1).parse()?,
             _ => format!("10.{}.{}.1:9000", i + 1, i + 1).parse()?,
         };
-        nodes.push(spawn_node(&net, &name, addr, Duration::from_millis(250), 8).await?);
-        names.push(name);
+        // every third world: nodes whose claimed identifier IS their transport id (the requester filter then bites)
+        let aligned = wi % 3 == 0;
+        let nd_ = spawn_node_opts(&net, &name, addr, Duration::from_millis(250), Duration::from_millis(250), 8, aligned).await?;
+        names.push(if aligned { nd_.tid.clone() } else { name });
+        nodes.push(nd_);
     }
     let mut degree = vec![0usize; n];
     for i in 0..n { for j in (i + 1)..n {
@@ -118,6 +121,7 @@ async fn run_world(wi: u64, mut rng: Rng) -> anyhow::Result<Summary> {
             sum.evaluations += 1;
             if l.len() >= 2 { sum.distinct_nontrivial += 1; }
             sum.count(&format!("reply_len:{}", l.len()));
+            if tid_index.get(requester).map(|&r| names[r] == *requester).unwrap_or(false) { sum.count("requester_claims_transport_id"); }
             if !problems.is_empty() {
                 sum.violation(cid, "a node list in a FIND_NODE / FIND_VALUE reply violates the closest-known rule", &[],
                     json!({"world": wi, "replier": x, "key": hex::encode(key), "reply": l.iter().map(|i| i[..8.min(i.len())].to_string()).collect::<Vec<_>>(),
